@@ -49,6 +49,8 @@ const (
 	BLogrusPanic
 	BRecoverFailNow
 	BOwnCheckResults
+	BPanicTypedNilError
+	BPanicErrorIsPanics
 	NumBehaviours
 )
 
@@ -62,7 +64,8 @@ var BehaviourNames = []string{"pass", "Fail", "FailNow", "Error", "Errorf", "Fat
 	"Error(nil)", "Fatal(nil)", "FailNow-on-the-setup-handle", "require-on-the-setup-handle",
 	"panic(\"\")", "panic-in-helper-goroutine-guarded-by-CheckResults", "two-guarded-helpers-sharing-one-done-channel",
 	"panic(value-whose-String-panics)", "FailNow-in-helper-goroutine-guarded-by-CheckResults",
-	"Logger().Panic", "FailNow-recovered-by-the-function-itself", "panic-under-the-function's-own-CheckResults"}
+	"Logger().Panic", "FailNow-recovered-by-the-function-itself", "panic-under-the-function's-own-CheckResults",
+	"panic(typed-nil-error)", "panic(error-whose-Is-panics)"}
 
 // Stops reports whether the behaviour ends the function at that point.
 func Stops(kind int) bool {
@@ -92,6 +95,22 @@ func (b *badStringer) String() string { return "bad stringer " + b.name }
 type sliceErr []string
 
 func (e sliceErr) Error() string { return "slice error" }
+
+// ptrErr is an error whose Error method needs its receiver.
+type ptrErr struct{ msg string }
+
+func (e *ptrErr) Error() string { return e.msg }
+
+func typedNil() error {
+	var e *ptrErr
+	return e
+}
+
+// isPanicsErr is an error whose Is method (consulted by errors.Is) panics.
+type isPanicsErr struct{ m map[string]int }
+
+func (e *isPanicsErr) Error() string { return "error whose Is panics" }
+func (e *isPanicsErr) Is(error) bool { e.m["x"]++; return false }
 
 type someStruct struct {
 	A int
@@ -218,6 +237,14 @@ func Behave(t *f1testing.T, kind int) {
 			defer f1testing.CheckResults(t, nil)
 			panic("planned panic under the function's own CheckResults")
 		}()
+	case BPanicTypedNilError:
+		// the classic: a function returns a nil *T as an error, the caller sees err != nil and panics with it; the value's
+		// Error method dereferences its receiver
+		if err := typedNil(); err != nil {
+			panic(err)
+		}
+	case BPanicErrorIsPanics:
+		panic(&isPanicsErr{})
 	case BOtherRequire:
 		if o := OtherHandle.Load(); o != nil {
 			o.Require().True(false, "planned failed require on the other handle")
